@@ -10,7 +10,7 @@ use std::sync::Mutex;
 
 fn args_for(f: &Field, tier: Tier) -> Vec<u128> {
     let ab = f.arg_bits;
-    let full_bits = if tier == Tier::Thorough { 20 } else { 16 };
+    let full_bits = if tier == Tier::Thorough { 28 } else { 20 };
     let mut v: Vec<u128> = vec![];
     if ab <= full_bits {
         v.extend(0..(1u128 << ab));
